@@ -151,8 +151,11 @@ def call_case(case):
         if out[0] == "err":
             return out
         l = bits_of(f, out[1])
-        if flags["unique"]:
+        nanb = any(b is not None and f.isnan(b) for b in specs[0][1:])
+        if flags["unique"] or nanb:
             l = [f.canon(b) for b in l]
+        else:
+            l = [f.qnan if f.isnan(b) else b for b in l]
         return ("ok", l, out[1])
     kw = {KW[k]: bool(flags[k]) for k in FLAGS if k != "unique"}
     v = lambda b: None if b is None else f.val(b)  # noqa: E731
@@ -482,13 +485,13 @@ def rand_size(rng, f, span=None, big_ok=True):
         return rng.randint(1, 10)
     if r < 0.50:
         return rng.choice([0, 0, -1, -2])
-    if r < 0.75:
+    if r < 0.80:
         return rng.randint(11, 120)
-    if span is not None and span < 60000 and r < 0.90:
+    if span is not None and span < 1200 and r < 0.93:
         return max(0, span + 1 + rng.choice([-2, -1, 0, 1, 2, span, 7]))
-    if big_ok and r < 0.97:
+    if big_ok and r >= 0.972:
         return rng.choice([1000, 1000, 2000, 5000, 10000, 10000, 10 ** 5, 10 ** 5, 31337, 65535, 65536, 65537, 70001])
-    return rng.randint(5, 40)
+    return rng.randint(5, 400)
 
 
 def gen_rs(rng, big_ok=True):
@@ -542,8 +545,9 @@ def gen_rs(rng, big_ok=True):
     elif cls == "nan-bound":
         lo, hi = (f.qnan, rand_pos_pattern(rng, f)) if rng.random() < 0.5 else (f.sb + rand_pos_pattern(rng, f), f.qnan)
     size = rand_size(rng, f, span, big_ok=big_ok)
-    if cls in ("zero-bound", "nan-bound") and size > 3000:
-        size = rng.randint(2, 3000)  # the wrapped stepping is far from sorted: keep the model's insertion sort cheap
+    wraps = lo == f.sb or hi == 0 or (lo is not None and f.isnan(lo)) or (hi is not None and f.isnan(hi))
+    if wraps and size > 600:
+        size = rng.randint(2, 600)  # the wrapped stepping is far from sorted: keep the model's insertion sort cheap
     if cls == "none" and rng.random() < 0.6:
         size = max(size, rng.randint(6, 30))
     return dict(kind="rs", fmt=bits, flags=flags, specs=[[size, lo, hi]], cls=cls)
